@@ -57,13 +57,13 @@ def order_of(case, seed):
 
 def next_file(r, mix, j):
     if mix == "small":
-        L = r.choice([0, 1, 100, 2000, 2290, 2294])
+        L = r.choice([0, 1, 100, 2000, 2290, 2294, 2298, 2300, 2301, 2302, 2303])
         t = r.choice([(2, 0), (0, 0), (0, 0xFF)])
     elif mix == "large":
         L = 65535 if j < 2 else r.choice([9 * 2304 - 10, 9 * 2304 - 11, 20000, 65535])
         t = (2, 0)
     elif mix == "exact":
-        L = r.choice([2294, 2304 * 2 - 10, 2304 * 3 - 10, 2301, 2304]) if j % 2 == 0 else r.choice([2304, 4608, 2301, 4605])
+        L = r.choice([2294, 2304 * 2 - 10, 2304 * 3 - 10, 2301, 2304]) if j % 2 == 0 else r.choice([2304, 4608, 2301, 2302, 2303, 4605, 4606, 4607, 6909, 6911])
         t = (2, 0) if j % 2 == 0 else r.choice([(0, 0xFF), (0, 0)])
     else:
         L = r.choice([0, 5, 2294, 2295, 2304, 4598, 4599, 9000, 20000, 30000, 65535, r.randrange(0, 12000)])
